@@ -29,6 +29,9 @@ type Parser struct {
 	// lastEnd is the end of the last token consumed that carries text (not a
 	// newline or indent): where the construct being parsed ends in the source.
 	lastEnd Position
+	// subdirValuePos is where the value of each subdirective read by the last
+	// parseSubdirectives call begins in the source.
+	subdirValuePos map[string]Position
 }
 
 func Parse(input string) (*ast.Journal, []ParseError) {
@@ -576,6 +579,7 @@ func (p *Parser) parseCommodityDirective(startPos Position) ast.Directive {
 
 	if format, ok := dir.Subdirs["format"]; ok {
 		dir.Format = format
+		dir.FormatSymbolRange = p.symbolRangeInFormat(format, dir.Commodity.Symbol)
 	}
 	if note, ok := dir.Subdirs["note"]; ok {
 		dir.Note = note
@@ -648,6 +652,7 @@ func (p *Parser) parsePriceDirective(startPos Position) ast.Directive {
 
 func (p *Parser) parseSubdirectives() map[string]string {
 	subdirs := make(map[string]string)
+	p.subdirValuePos = make(map[string]Position)
 
 	for p.current.Type == TokenNewline {
 		p.advance()
@@ -668,6 +673,7 @@ func (p *Parser) parseSubdirectives() map[string]string {
 
 		if p.current.Type == TokenText {
 			line := p.current.Value
+			linePos := p.current.Pos
 			p.advance()
 
 			spaceIdx := strings.Index(line, " ")
@@ -675,6 +681,12 @@ func (p *Parser) parseSubdirectives() map[string]string {
 				name := line[:spaceIdx]
 				value := strings.TrimSpace(line[spaceIdx+1:])
 				subdirs[name] = value
+				valueIdx := spaceIdx + 1 + strings.Index(line[spaceIdx+1:], value)
+				p.subdirValuePos[name] = Position{
+					Line:   linePos.Line,
+					Column: linePos.Column + utf16Len(line[:valueIdx]),
+					Offset: linePos.Offset + valueIdx,
+				}
 			} else {
 				subdirs[line] = ""
 			}
@@ -703,6 +715,26 @@ func (p *Parser) parseSubdirectives() map[string]string {
 	}
 
 	return subdirs
+}
+
+// symbolRangeInFormat locates the commodity symbol inside the value of a
+// format subdirective ("format 1.000,00 EUR"): the symbol is written there a
+// second time, and a rename has to reach it.
+func (p *Parser) symbolRangeInFormat(format, symbol string) *ast.Range {
+	start, ok := p.subdirValuePos["format"]
+	if !ok || symbol == "" {
+		return nil
+	}
+	written := symbol
+	idx := strings.Index(format, "\""+symbol+"\"")
+	if idx >= 0 {
+		written = "\"" + symbol + "\""
+	} else if idx = strings.Index(format, symbol); idx < 0 {
+		return nil
+	}
+	from := Position{Line: start.Line, Column: start.Column + utf16Len(format[:idx]), Offset: start.Offset + idx}
+	to := Position{Line: start.Line, Column: from.Column + utf16Len(written), Offset: from.Offset + len(written)}
+	return &ast.Range{Start: toASTPosition(from), End: toASTPosition(to)}
 }
 
 func (p *Parser) parseDefaultCommodityDirective(startPos Position) ast.Directive {
